@@ -2,13 +2,27 @@ use cosmian_cover_crypt::AccessPolicy;
 use std::io::{BufRead, Write};
 fn hex(b:&[u8])->String{ b.iter().map(|x| format!("{:02x}",x)).collect() }
 fn unhex(s:&str)->Vec<u8>{ (0..s.len()/2).map(|i| u8::from_str_radix(&s[2*i..2*i+2],16).unwrap()).collect() }
+/// "@<prefix notation>": a policy BUILT with the enum constructors (B, T,<dim hex>,<name hex>, A,<x>,<y>, O,<x>,<y>)
+fn build(s:&str)->Option<AccessPolicy>{
+    use cosmian_cover_crypt::QualifiedAttribute;
+    fn go(t:&[&str],p:&mut usize)->Option<AccessPolicy>{
+        let k=*t.get(*p)?; *p+=1;
+        match k {
+            "B"=>Some(AccessPolicy::Broadcast),
+            "T"=>{ let d=String::from_utf8(unhex(t.get(*p)?)).ok()?; let n=String::from_utf8(unhex(t.get(*p+1)?)).ok()?; *p+=2; Some(AccessPolicy::Term(QualifiedAttribute::new(&d,&n))) }
+            "A"=>{ let l=go(t,p)?; let r=go(t,p)?; Some(AccessPolicy::Conjunction(Box::new(l),Box::new(r))) }
+            "O"=>{ let l=go(t,p)?; let r=go(t,p)?; Some(AccessPolicy::Disjunction(Box::new(l),Box::new(r))) }
+            _=>None }
+    }
+    let t:Vec<&str>=s.strip_prefix('@')?.split(',').collect(); let mut p=0; let r=go(&t,&mut p)?; if p==t.len(){Some(r)}else{None}
+}
 fn main(){
     std::panic::set_hook(Box::new(|_|{}));
     let stdin=std::io::stdin(); let out=std::io::stdout(); let mut out=std::io::BufWriter::new(out.lock());
     for line in stdin.lock().lines(){
         let line=line.unwrap();
         let s=String::from_utf8(unhex(line.trim())).unwrap();
-        let r=std::panic::catch_unwind(|| AccessPolicy::parse(&s).map(|p| p.to_dnf()));
+        let r=std::panic::catch_unwind(|| if s.starts_with('@') { build(&s).map(|p| p.to_dnf()).ok_or(cosmian_cover_crypt::Error::InvalidBooleanExpression("bad built policy".into())) } else { AccessPolicy::parse(&s).map(|p| p.to_dnf()) });
         match r {
             Err(_)=>writeln!(out,"PANIC").unwrap(),
             Ok(Err(_))=>writeln!(out,"ERR").unwrap(),
